@@ -13,8 +13,9 @@ VARIABLES providers,  \* acct -> [ip, keybase, space, claimers]
           primary,    \* acct -> name
           blocks,     \* set of <<owner, blocked>>
           files,      \* set of <<merkle, owner, start>>
+          inbox,      \* set of <<recipient, sender>>: a notification of sender rests in recipient's inbox (block time is fixed per history)
           height, last
-vars == <<providers, feeds, primary, blocks, files, height>>
+vars == <<providers, feeds, primary, blocks, files, inbox, height>>
 Put(f, k, v) == [x \in (DOMAIN f) \cup {k} |-> IF x = k THEN v ELSE f[x]]
 Del(f, k)    == [x \in (DOMAIN f) \ {k} |-> f[x]]
 InSeq(x, q)  == \E i \in DOMAIN q : q[i] = x
@@ -24,54 +25,63 @@ InitProvider(s, ip) ==
   LET lbl == [a |-> "initprovider", s |-> s, v |-> ip, ok |-> TRUE] IN
   IF s \in DOMAIN providers THEN Fail(lbl)
   ELSE /\ providers' = Put(providers, s, [ip |-> ip, keybase |-> "kb", space |-> 1000, claimers |-> <<>>])
-       /\ UNCHANGED <<feeds, primary, blocks, files, height>> /\ last' = lbl
+       /\ UNCHANGED <<feeds, primary, blocks, files, inbox, height>> /\ last' = lbl
 Shutdown(s) ==
   LET lbl == [a |-> "shutdown", s |-> s, ok |-> TRUE] IN
   IF s \notin DOMAIN providers THEN Fail(lbl)
-  ELSE providers' = Del(providers, s) /\ UNCHANGED <<feeds, primary, blocks, files, height>> /\ last' = lbl
+  ELSE providers' = Del(providers, s) /\ UNCHANGED <<feeds, primary, blocks, files, inbox, height>> /\ last' = lbl
 \* field in {"ip", "keybase", "space"}
 SetField(s, field, v) ==
   LET lbl == [a |-> "set" \o field, s |-> s, v |-> v, ok |-> TRUE] IN
   IF s \notin DOMAIN providers THEN Fail(lbl)
-  ELSE providers' = [providers EXCEPT ![s][field] = v] /\ UNCHANGED <<feeds, primary, blocks, files, height>> /\ last' = lbl
+  ELSE providers' = [providers EXCEPT ![s][field] = v] /\ UNCHANGED <<feeds, primary, blocks, files, inbox, height>> /\ last' = lbl
 AddClaimer(s, c) ==
   LET lbl == [a |-> "addclaimer", s |-> s, c |-> c, ok |-> TRUE] IN
   IF s \notin DOMAIN providers THEN Fail(lbl)
   ELSE IF InSeq(c, providers[s].claimers) THEN Fail(lbl)
-  ELSE providers' = [providers EXCEPT ![s].claimers = Append(@, c)] /\ UNCHANGED <<feeds, primary, blocks, files, height>> /\ last' = lbl
+  ELSE providers' = [providers EXCEPT ![s].claimers = Append(@, c)] /\ UNCHANGED <<feeds, primary, blocks, files, inbox, height>> /\ last' = lbl
 RmClaimer(s, c) ==
   LET lbl == [a |-> "rmclaimer", s |-> s, c |-> c, ok |-> TRUE] IN
   IF s \notin DOMAIN providers THEN Fail(lbl)
   ELSE IF ~InSeq(c, providers[s].claimers) THEN Fail(lbl)
-  ELSE providers' = [providers EXCEPT ![s].claimers = SelectSeq(@, LAMBDA x : x # c)] /\ UNCHANGED <<feeds, primary, blocks, files, height>> /\ last' = lbl
+  ELSE providers' = [providers EXCEPT ![s].claimers = SelectSeq(@, LAMBDA x : x # c)] /\ UNCHANGED <<feeds, primary, blocks, files, inbox, height>> /\ last' = lbl
 CreateFeed(s, n) ==
   LET lbl == [a |-> "createfeed", s |-> s, n |-> n, ok |-> TRUE] IN
   IF n \in DOMAIN feeds THEN Fail(lbl)
-  ELSE feeds' = Put(feeds, n, [owner |-> s, data |-> ""]) /\ UNCHANGED <<providers, primary, blocks, files, height>> /\ last' = lbl
+  ELSE feeds' = Put(feeds, n, [owner |-> s, data |-> ""]) /\ UNCHANGED <<providers, primary, blocks, files, inbox, height>> /\ last' = lbl
 UpdateFeed(s, n, d) ==
   LET lbl == [a |-> "updatefeed", s |-> s, n |-> n, d |-> d, ok |-> TRUE] IN
   IF n \notin DOMAIN feeds THEN Fail(lbl)
   ELSE IF feeds[n].owner # s THEN Fail(lbl)
-  ELSE feeds' = [feeds EXCEPT ![n].data = d] /\ UNCHANGED <<providers, primary, blocks, files, height>> /\ last' = lbl
+  ELSE feeds' = [feeds EXCEPT ![n].data = d] /\ UNCHANGED <<providers, primary, blocks, files, inbox, height>> /\ last' = lbl
 MakePrimary(s, n) ==
-  /\ primary' = Put(primary, s, n) /\ UNCHANGED <<providers, feeds, blocks, files, height>>
+  /\ primary' = Put(primary, s, n) /\ UNCHANGED <<providers, feeds, blocks, files, inbox, height>>
   /\ last' = [a |-> "makeprimary", s |-> s, n |-> n, ok |-> TRUE]
 BlockSender(s, b) ==
-  /\ blocks' = blocks \cup {<<s, b>>} /\ UNCHANGED <<providers, feeds, primary, files, height>>
+  /\ blocks' = blocks \cup {<<s, b>>} /\ UNCHANGED <<providers, feeds, primary, files, inbox, height>>
   /\ last' = [a |-> "blocksender", s |-> s, b |-> b, ok |-> TRUE]
 PostFile(s, m) ==
-  /\ files' = files \cup {<<m, s, height>>} /\ UNCHANGED <<providers, feeds, primary, blocks, height>>
+  /\ files' = files \cup {<<m, s, height>>} /\ UNCHANGED <<providers, feeds, primary, blocks, inbox, height>>
   /\ last' = [a |-> "postfile", s |-> s, m |-> m, ok |-> TRUE]
 \* the message can only name (merkle, start); the owner part of the key is the creator
 DeleteFile(s, m, st) ==
-  /\ files' = files \ {<<m, s, st>>} /\ UNCHANGED <<providers, feeds, primary, blocks, height>>
+  /\ files' = files \ {<<m, s, st>>} /\ UNCHANGED <<providers, feeds, primary, blocks, inbox, height>>
   /\ last' = [a |-> "deletefile", s |-> s, m |-> m, st |-> st, ok |-> TRUE]
+\* x/notifications: a notification lands in the recipient's inbox unless the recipient blocked the sender;
+\* only the inbox owner deletes from it (msg_server_create_notifications.go, msg_server_delete_notifications.go)
+Notify(s, to) ==
+  LET lbl == [a |-> "notify", s |-> s, to |-> to, ok |-> TRUE] IN
+  IF <<to, s>> \in blocks THEN Fail(lbl)
+  ELSE inbox' = inbox \cup {<<to, s>>} /\ UNCHANGED <<providers, feeds, primary, blocks, files, height>> /\ last' = lbl
+DelNotif(s, from) ==
+  /\ inbox' = inbox \ {<<s, from>>} /\ UNCHANGED <<providers, feeds, primary, blocks, files, height>>
+  /\ last' = [a |-> "delnotif", s |-> s, from |-> from, ok |-> TRUE]
 \* a contract posts a file through the wasm binding: only in its own name
 ContractPost(contract, creator, m) ==
   LET lbl == [a |-> "contractpost", s |-> contract, creator |-> creator, m |-> m, ok |-> TRUE] IN
   IF creator # contract THEN Fail(lbl)
-  ELSE files' = files \cup {<<m, contract, height>>} /\ UNCHANGED <<providers, feeds, primary, blocks, height>> /\ last' = lbl
-Tick == height' = height + 1 /\ UNCHANGED <<providers, feeds, primary, blocks, files>> /\ last' = [a |-> "tick", s |-> "none", ok |-> TRUE]
+  ELSE files' = files \cup {<<m, contract, height>>} /\ UNCHANGED <<providers, feeds, primary, blocks, inbox, height>> /\ last' = lbl
+Tick == height' = height + 1 /\ UNCHANGED <<providers, feeds, primary, blocks, files, inbox>> /\ last' = [a |-> "tick", s |-> "none", ok |-> TRUE]
 
 C11_Own ==
   LET l == last'  s == l.s IN
@@ -87,4 +97,6 @@ C11_Own ==
   /\ \A f \in files \ files' : f[2] = s
   /\ \A f \in files' \ files : f[2] = s
   /\ (l.a = "contractpost" /\ l.ok) => l.creator = l.s
+  /\ \A e \in inbox \ inbox' : e[1] = s      \* an inbox loses entries only by a message of its owner
+  /\ \A e \in inbox' \ inbox : e[2] = s      \* and gains only entries whose sender is the signer
 =============================================================================
